@@ -458,6 +458,95 @@ var subC06Diff = core.NewSub("C06/targeted-difference", func(w *core.Worker, c p
 	return nil
 })
 
+// A Point that lives through many writes: whatever a tree keeps per object about its last comparison
+// (a memo with a generation counter, say) must be invalidated by the 256th and the 65536th write too.
+type longCase struct {
+	Writer string `json:"writer"`
+	Writes int    `json:"writes"`
+}
+
+var subC06Long = core.NewSub("C06/long-lived-object", func(w *core.Worker, c longCase) *core.Fail {
+	B := ref.Base()
+	bp := alpha.MakePoint(B, 0)
+	two := ref.Add(B, B)
+	tp := alpha.MakePoint(two, 6)
+	acc := alpha.MakePoint(B, 3)
+	am := B
+	// compared (both orders) and encoded before the writes
+	if acc.Equal(bp) != 1 || bp.Equal(acc) != 1 || acc.Equal(tp) != 0 {
+		return core.Failf("Equal wrong before any write")
+	}
+	acc.Bytes()
+	encB, enc2 := ref.Encode(B), ref.Encode(two)
+	for i := 0; i < c.Writes; i++ {
+		switch c.Writer {
+		case "Add":
+			acc.Add(acc, bp)
+		case "Subtract":
+			acc.Subtract(acc, bp)
+		case "Set":
+			if i%2 == 0 {
+				acc.Set(tp)
+			} else {
+				acc.Set(bp)
+			}
+		case "Negate":
+			acc.Negate(acc)
+		case "SetBytes":
+			e := encB[:]
+			if i%2 == 0 {
+				e = enc2[:]
+			}
+			if _, err := acc.SetBytes(e); err != nil {
+				return core.Failf("SetBytes rejected a valid encoding")
+			}
+		}
+	}
+	n := int64(c.Writes)
+	switch c.Writer {
+	case "Add":
+		am = ref.Mul(big.NewInt(n+1), B)
+	case "Subtract":
+		am = ref.Neg(ref.Mul(big.NewInt(n-1), B))
+	case "Set", "SetBytes":
+		if n%2 == 1 {
+			am = two
+		}
+	case "Negate":
+		if n%2 == 1 {
+			am = ref.Neg(B)
+		}
+	}
+	want := alpha.MakePoint(am, 5)
+	exp := func(a, b ref.Pt) int {
+		if a.Equal(b) {
+			return 1
+		}
+		return 0
+	}
+	for _, t := range []struct {
+		name string
+		got  int
+		want int
+	}{
+		{"acc.Equal(model value)", acc.Equal(want), 1},
+		{"(model value).Equal(acc)", want.Equal(acc), 1},
+		{"acc.Equal(B)", acc.Equal(bp), exp(am, B)},
+		{"B.Equal(acc)", bp.Equal(acc), exp(am, B)},
+		{"acc.Equal(2B)", acc.Equal(tp), exp(am, two)},
+	} {
+		if t.got != t.want {
+			return core.Failf("after %d writes by %s to one Point that had been compared before: %s = %d want %d", c.Writes, c.Writer, t.name, t.got, t.want)
+		}
+	}
+	if f := pointMatches(acc, am); f != nil {
+		return core.Failf("after %d writes by %s: %s", c.Writes, c.Writer, f.Msg)
+	}
+	e := ref.Encode(am)
+	w.Distinct("nontrivial:results", e[:])
+	return nil
+})
+
 func init() { register("C06", "exploration", runC06) }
 
 func runC06(ctx *core.Ctx) {
@@ -505,6 +594,17 @@ func runC06(ctx *core.Ctx) {
 		}
 	}
 	subC06Diff.RunList(ctx, dc)
+	// one long-lived Point written many times between two comparisons
+	var lc []longCase
+	for _, wr := range []string{"Add", "Subtract", "Set", "Negate", "SetBytes"} {
+		for _, n := range []int{1, 2, 255, 256, 257, 511, 512, 513, 65535, 65536, 65537} {
+			if wr == "SetBytes" && n > 1000 {
+				continue
+			}
+			lc = append(lc, longCase{wr, n})
+		}
+	}
+	subC06Long.RunList(ctx, lc)
 	if ctx.DistinctCount("equal-outcomes") != 2 || ctx.DistinctCount("nontrivial:negatives-sharing-a-coordinate") < 8 {
 		ctx.Vacuous("C06: vacuous coverage (no hard negatives)")
 	}
